@@ -196,13 +196,51 @@ def rule_fq2_sqrt(fx, rep):
             resl = IL.run(lp, [('byref', Agg([Lin.atom('c0'), Lin.atom('c1')]))])
             rep.sites(IL.call_sites)
             resl = [r_ for r_ in resl if not (isinstance(r_[1], tuple) and r_[1] and r_[1][0] == 'diverges')]
-            v = resl[0][1] if len(resl) == 1 else None
-            if isinstance(v, tuple) and v and v[0] == 'legendre_fq' and isinstance(v[1], Lin) and len(v[1].t) == 1 and list(v[1].t.values()) == [1]:
-                site = [s_ for s_ in IL.opaque_sites if s_[0] in v[1].t]
-                ok = bool(site) and site[0][1] in ('add_assign(Lin(c1:2), Lin(c0:2))', 'add_assign(Lin(c0:2), Lin(c1:2))')
-                why = 'the quadratic character is taken of %s' % (site[0][1] if site else v[1],)
-            else:
-                why = 'returns %r' % ([r_[1] for r_ in resl],)
+            # decided by value in the four worlds (c0 = 0?, c1 = 0?): the character of the norm c0^2 + c1^2 is Zero when
+            # both vanish, QuadraticResidue when exactly one does (the norm is then a non-zero square), and the character
+            # of the sum in general; a path is judged in the worlds its zero tests allow
+            import tt
+            is_sum = lambda l_: (isinstance(l_, Lin) and len(l_.t) == 1 and list(l_.t.values()) == [1] and any(
+                s_[0] in l_.t and s_[1] in ('add_assign(Lin(c1:2), Lin(c0:2))', 'add_assign(Lin(c0:2), Lin(c1:2))') for s_ in IL.opaque_sites))
+
+            def evaluate(r_, z0, z1):
+                if isinstance(r_, Agg) and r_.kind and isinstance(r_.kind[0], str) and r_.kind[0].endswith('LegendreSymbol'):
+                    return r_.kind[1]
+                if isinstance(r_, tuple) and r_ and r_[0] == 'legendre_fq' and isinstance(r_[1], Lin):
+                    l_ = r_[1]
+                    if is_sum(l_):
+                        return 'Zero' if (z0 and z1) else ('QuadraticResidue' if (z0 or z1) else 'general')
+                    if set(l_.t) <= {'c0', 'c1'} and all(e_ > 0 for e_ in l_.t.values()):
+                        if (z0 and 'c0' in l_.t) or (z1 and 'c1' in l_.t):
+                            return 'Zero'
+                        if all(e_ % 2 == 0 for e_ in l_.t.values()):
+                            return 'QuadraticResidue'
+                return None
+            kz = {('is_zero', tt.lin_key(Lin.atom('c0'))): 0, ('is_zero', tt.lin_key(Lin.atom('c1'))): 1}
+            bads, ngen = [], 0
+            for pth_, ret_, _o in resl:
+                est = [None, None]
+                other = None
+                for k_, t_, lab_ in tt.path_literals(pth_):
+                    if k_ in kz:
+                        est[kz[k_]] = t_
+                    else:
+                        other = lab_
+                if other is not None:
+                    bads.append('branches on %r (expected zero tests of the coefficients)' % (other,))
+                    continue
+                for z0 in ((True, False) if est[0] is None else (est[0],)):
+                    for z1 in ((True, False) if est[1] is None else (est[1],)):
+                        want_ = 'Zero' if (z0 and z1) else ('QuadraticResidue' if (z0 or z1) else 'general')
+                        got_ = evaluate(ret_, z0, z1)
+                        if want_ == 'general':
+                            ngen += 1 if got_ == 'general' else 0
+                        if got_ != want_:
+                            bads.append('c0 %s 0, c1 %s 0: returns %r, expected %s' % ('=' if z0 else '!=', '=' if z1 else '!=', ret_, 'the character of c0^2 + c1^2' if want_ == 'general' else want_))
+            if not ngen and not bads:
+                bads.append('no path takes the character of the norm')
+            ok = not bads
+            why = '; '.join(bads[:2])
         except (exp.NotDerivable, exp.Budget) as e:
             why = 'not derivable: %s' % e
     rep.check(ok, 'WIRE', 'Fq2::legendre', 'legendre(a) = legendre_Fq(c0^2 + c1^2) (by interpretation)', why, fx.fn(lp)['span'] if lp else None, construct=lp)
